@@ -17,16 +17,30 @@ model works with unbounded integers and has no `reserve`.
 import EngineModel.Gen.ImplV2Gen
 import EngineModel.Impl.V2
 import Proofs.CursorCxxLemmas
+import Proofs.CxxPrimsLemmas
 import Proofs.ImplV2
 set_option linter.unusedSimpArgs false
 
 namespace EngineModel.Gen.ImplV2
 open Codec Cur
 
+/-- The C++ primitive readers are the unchecked reads of the Spec's primitive decoders
+(Proofs/CxxPrimsLemmas.lean: byte order and widths agree). -/
+theorem prims :
+    CxxPrims.decode_uint8 = rd u8 ∧ CxxPrims.decode_int32_le = rd u32le ∧ CxxPrims.decode_int32_be = rd u32be ∧
+    CxxPrims.decode_int64_le = rd u64le ∧ CxxPrims.decode_int64_be = rd u64be ∧
+    CxxPrims.decode_double_le = rd u64le ∧ CxxPrims.decode_double_be = rd u64be :=
+  ⟨CxxPrims.decode_uint8_eq, CxxPrims.decode_int32_le_eq, CxxPrims.decode_int32_be_eq,
+   CxxPrims.decode_int64_le_eq, CxxPrims.decode_int64_be_eq, CxxPrims.decode_double_le_eq,
+   CxxPrims.decode_double_be_eq⟩
+
 /-- `track_data_blob::from_blob` -/
 theorem decodeTrack_eq : decodeTrack = Impl.V2.decodeTrack := by
   funext bs
   unfold decodeTrack Impl.V2.decodeTrack Cur.fromBlob
+  simp only [CxxPrims.decode_uint8_eq, CxxPrims.decode_int32_le_eq, CxxPrims.decode_int32_be_eq,
+    CxxPrims.decode_int64_le_eq, CxxPrims.decode_int64_be_eq, CxxPrims.decode_double_le_eq,
+    CxxPrims.decode_double_be_eq]
   by_cases h : bs.length < 44 <;> simp [h, Res.bind]
 
 /-! ### beat data -/
@@ -34,12 +48,18 @@ theorem decodeTrack_eq : decodeTrack = Impl.V2.decodeTrack := by
 /-- the marker loop body of `decode_beatgrid` reads one Spec marker -/
 theorem decodeGrid_body1_eq : decodeGrid_body1 = rd V2.marker := by
   unfold decodeGrid_body1
+  simp only [CxxPrims.decode_uint8_eq, CxxPrims.decode_int32_le_eq, CxxPrims.decode_int32_be_eq,
+    CxxPrims.decode_int64_le_eq, CxxPrims.decode_int64_be_eq, CxxPrims.decode_double_le_eq,
+    CxxPrims.decode_double_be_eq]
   simp only [V2.marker, rd_map, rd_pair, bind_assoc', pure_bind']
 
 /-- `decode_beatgrid(ptr, end)` (anonymous namespace of beat_data_blob.cpp) -/
 theorem decodeGrid_eq : decodeGrid = Impl.V2.decodeGrid := by
   funext bs
   unfold decodeGrid Impl.V2.decodeGrid
+  simp only [CxxPrims.decode_uint8_eq, CxxPrims.decode_int32_le_eq, CxxPrims.decode_int32_be_eq,
+    CxxPrims.decode_int64_le_eq, CxxPrims.decode_int64_be_eq, CxxPrims.decode_double_le_eq,
+    CxxPrims.decode_double_be_eq]
   rw [decodeGrid_body1_eq]
   simp only [bind_run, remaining_run]
   by_cases h8 : bs.length < 8
@@ -63,6 +83,9 @@ theorem decodeGrid_eq : decodeGrid = Impl.V2.decodeGrid := by
 theorem decodeBeat_eq : decodeBeat = Impl.V2.decodeBeat := by
   funext bs
   unfold decodeBeat Impl.V2.decodeBeat Cur.fromBlob
+  simp only [CxxPrims.decode_uint8_eq, CxxPrims.decode_int32_le_eq, CxxPrims.decode_int32_be_eq,
+    CxxPrims.decode_int64_le_eq, CxxPrims.decode_int64_be_eq, CxxPrims.decode_double_le_eq,
+    CxxPrims.decode_double_be_eq]
   rw [decodeGrid_eq]
   by_cases h : bs.length < 33 <;> simp [h, Res.bind]
 
@@ -85,6 +108,9 @@ theorem assign_if_pos (n : Nat) :
 /-- the per-loop body of `loops_blob::from_blob` -/
 theorem decodeLoops_body1_eq : decodeLoops_body1 = Impl.V2.decodeLoop := by
   unfold decodeLoops_body1 Impl.V2.decodeLoop
+  simp only [CxxPrims.decode_uint8_eq, CxxPrims.decode_int32_le_eq, CxxPrims.decode_int32_be_eq,
+    CxxPrims.decode_int64_le_eq, CxxPrims.decode_int64_be_eq, CxxPrims.decode_double_le_eq,
+    CxxPrims.decode_double_be_eq]
   simp only [assign_if_pos, V2.color, rd_map, rd_pair, bind_assoc', pure_bind']
   funext bs
   simp only [bind_run, remaining_run]
@@ -119,6 +145,9 @@ the guard excludes only when the payload is shorter than 23 * 2^63 / 56 bytes.  
 theorem decodeLoops_eq_partial (bs : Bytes) (hb : bs.length < 2305843009213693952) :
     decodeLoops bs = Impl.V2.decodeLoops bs := by
   unfold decodeLoops Impl.V2.decodeLoops Cur.fromBlob
+  simp only [CxxPrims.decode_uint8_eq, CxxPrims.decode_int32_le_eq, CxxPrims.decode_int32_be_eq,
+    CxxPrims.decode_int64_le_eq, CxxPrims.decode_int64_be_eq, CxxPrims.decode_double_le_eq,
+    CxxPrims.decode_double_be_eq]
   rw [decodeLoops_body1_eq]
   simp only [bind_run, remaining_run]
   by_cases h8 : bs.length < 8
@@ -148,6 +177,9 @@ theorem decodeLoops_eq_partial (bs : Bytes) (hb : bs.length < 230584300921369395
 /-- the per-cue body of `quick_cues_blob::from_blob` -/
 theorem decodeCues_body1_eq : decodeCues_body1 = Impl.V2.decodeCue := by
   unfold decodeCues_body1 Impl.V2.decodeCue
+  simp only [CxxPrims.decode_uint8_eq, CxxPrims.decode_int32_le_eq, CxxPrims.decode_int32_be_eq,
+    CxxPrims.decode_int64_le_eq, CxxPrims.decode_int64_be_eq, CxxPrims.decode_double_le_eq,
+    CxxPrims.decode_double_be_eq]
   simp only [V2.color, rd_map, rd_pair, bind_assoc', pure_bind']
   congr 1
   funext len
@@ -172,6 +204,9 @@ see `decodeLoops_eq_partial` (`reserve(num_hot_cues)`, `sizeof(quick_cue_blob) =
 theorem decodeCues_eq_partial (bs : Bytes) (hb : bs.length < 2305843009213693952) :
     decodeCues bs = Impl.V2.decodeCues bs := by
   unfold decodeCues Impl.V2.decodeCues Cur.fromBlob
+  simp only [CxxPrims.decode_uint8_eq, CxxPrims.decode_int32_le_eq, CxxPrims.decode_int32_be_eq,
+    CxxPrims.decode_int64_le_eq, CxxPrims.decode_int64_be_eq, CxxPrims.decode_double_le_eq,
+    CxxPrims.decode_double_be_eq]
   rw [decodeCues_body1_eq]
   simp only [bind_run, remaining_run]
   by_cases h8 : bs.length < 25
@@ -233,6 +268,9 @@ hand model computes in unbounded integers.  Likewise `resize(num_entries_1)` sta
 theorem decodeOvw_eq_partial (bs : Bytes) (hb : bs.length < 9223372036854775808) :
     decodeOvw bs = Impl.V2.decodeOvw bs := by
   unfold decodeOvw Impl.V2.decodeOvw Cur.fromBlob
+  simp only [CxxPrims.decode_uint8_eq, CxxPrims.decode_int32_le_eq, CxxPrims.decode_int32_be_eq,
+    CxxPrims.decode_int64_le_eq, CxxPrims.decode_int64_be_eq, CxxPrims.decode_double_le_eq,
+    CxxPrims.decode_double_be_eq]
   simp only [bind_run, remaining_run]
   by_cases h27 : bs.length < 27
   · simp [h27, Res.bind]
